@@ -9,6 +9,7 @@ import InovesaModel.Model.Options
 import InovesaModel.Model.MainProgram
 import InovesaModel.Model.DynamicRF
 import InovesaModel.Gen.Sizes
+import InovesaModel.Gen.DriftWake
 import InovesaModel.Model.Impedance
 open Inovesa
 namespace Driver
@@ -253,7 +254,8 @@ def runEF (c : Case) : List String :=
   let sdelta := (e 4).toFloat
   let dt := (e 5).toFloat
   let fcut : Float32 := e 6
-  let wsc0 : Float32 := (ib * dt * c_light / qscale.toFloat / (deltaP.toFloat * sdelta * e0)).toFloat32
+  -- GENERATED expression of the delegating constructor, evaluated in binary64 like the C++
+  let wsc0 : Float32 := (Gen.wakeScalingArg ib dt c_light qscale.toFloat delta.toFloat deltaP.toFloat sdelta e0).toFloat32
   let wakescaling : Float32 := wsc0 / Float32.ofNat nmax
   let volts : Float := (deltaP * pscale / revpart).toFloat
   let f4wph : Float := 2.0 * 1.0 * 1.0 * 1.0 / frev
